@@ -2,14 +2,14 @@
 From Verif Require Export Percolator.Stable.
 
 Lemma run_from_frozen : forall evs s s' T, run_from s evs = Some s' ->
-  (F s T FTold <> 0 -> F s' T FTold = F s T FTold) /\
+  (F s T FTold <> 0 -> F s' T FTold = F s T FTold /\ F s' T FTriedA = F s T FTriedA /\ F s' T FTried1 = F s T FTried1) /\
   (hasm s T -> hasm s' T /\ prim s' T = prim s T /\ lm s' T = lm s T).
 Proof.
   induction evs as [| e evs IH]; intros s s' T H; cbn [run_from] in H.
   - inversion H. subst. tauto.
   - unfold step in H. destruct (stepr s e) as [s1 | rr] eqn:E; try discriminate.
     destruct (stepr_frozen _ _ _ T E) as [A1 A2]. destruct (IH _ _ T H) as [B1 B2]. split.
-    + intros Hn. rewrite B1; [auto | rewrite A1; auto].
+    + intros Hn. destruct (A1 Hn) as [A3 [A4 A5]]. destruct B1 as [B3 [B4 B5]]; [congruence |]. repeat split; congruence.
     + intros Hh. destruct (A2 Hh) as [A3 [A4 A5]]. destruct (B2 A3) as [B3 [B4 B5]]. repeat split; congruence.
 Qed.
 
@@ -54,17 +54,21 @@ Section Atomic.
   Proof.
     intros Ht. destruct (t_told_ok _ _ I Ht) as [c HP]. exists c. split; auto. split; [apply committed_keys; auto |].
     intros evs' s' R'. destruct (run_from_frozen _ _ _ T R') as [A1 A2]. destruct (A2 Hm) as [_ [A3 _]].
-    split; [rewrite A1; [auto | rewrite Ht; discriminate] |]. rewrite A3.
+    split; [destruct A1 as [A1 _]; [rewrite Ht; discriminate | congruence] |]. rewrite A3.
     eapply km_committed; [eapply run_from_kmono; eauto | auto].
   Qed.
 
   Lemma told_err_never : F s T FTold = 3 ->
-    forall evs' s', run_from s evs' = Some s' -> classic s' T ->
+    forall evs' s', run_from s evs' = Some s' ->
       F s' T FTold = 3 /\ forall k c, kget s' T k <> Committed c.
   Proof.
-    intros Ht evs' s' R' Hc'. destruct (run_from_frozen _ _ _ T R') as [A1 A2]. destruct (A2 Hm) as [A3 _].
-    assert (Ht' : F s' T FTold = 3) by (rewrite A1; [auto | rewrite Ht; discriminate]).
-    split; auto. pose proof (inv_run_from _ _ _ HI R' T) as [G' I']. specialize (I' A3 Hc').
+    intros Ht evs' s' R'. destruct (run_from_frozen _ _ _ T R') as [A1 A2]. destruct (A2 Hm) as [A3 _].
+    destruct A1 as [A4 [A5 A6]]; [rewrite Ht; discriminate |].
+    assert (Ht' : F s' T FTold = 3) by congruence.
+    split; auto. pose proof (inv_run_from _ _ _ HI R' T) as [G' I'].
+    assert (Hc' : classic s' T).
+    { apply (classic_flags _ _ G'). destruct (proj1 (classic_flags _ _ G) Hc) as [Fa F1]. split; congruence. }
+    specialize (I' A3 Hc').
     intros k c. eapply told_err_never_committed; eauto.
   Qed.
 End Atomic.
@@ -76,9 +80,9 @@ Proof.
   intros s s' r T ks m o Ho H k Hk. cbn [stepr] in H. unfold step_pw_deliver in H. chks H.
   apply N.eqb_neq in Ho. rewrite Ho in H. destruct (step_keys _ _ _ _) as [s2 |] eqn:E; try discriminate. okinv H.
   pose proof (step_keys_exact _ _ _ _ _ (tr_1pc_ok o) (tr_1pc_idem o) (tr_1pc_total o) E k Hk) as A.
-  change (kget (add_dlv s (EPwReply r T ks (PwOk m o))) T k) with (kget s T k) in A.
-  destruct (kget s T k); cbn in A; try (inversion A; auto; fail).
-  destruct (c =? o) eqn:Ec; inversion A. apply N.eqb_eq in Ec. subst. auto.
+  rewrite kget_setc, kget_add_dlv in A.
+  destruct (kget s T k) as [| m0 | c0 |]; cbn in A; try (inversion A; auto; fail).
+  destruct (c0 =? o) eqn:Ec; inversion A. apply N.eqb_eq in Ec. subst. auto.
 Qed.
 
 (* first rejection of a trace: index and reason (None = accepted) *)
